@@ -4,7 +4,8 @@
 # (3) the patched tree compiles and the existing suite passes (except the 5 network tests).
 # Writes <worktree>/out/<k>/confirm.log ; prints a one-line verdict.
 set -u
-WT=$1; K=$2; D=$WT/out/$K
+WT=$1; K=$2; D=$WT/out/$K; PATCH=${3:-patch.diff}
+export CARGO_TARGET_DIR=${SEED_TARGET:-/tmp/seed/shared-target}
 cd $WT || exit 2
 export CARGO_NET_OFFLINE=true
 git checkout -q -- . ; git clean -fdq -e out -e target
@@ -13,14 +14,14 @@ demo_cmd=$(grep -o 'cargo test --offline[^`]*' $D/notes.md | head -1)
 [ -z "$demo_cmd" ] && demo_cmd="cargo test --offline --lib demo"
 echo "demo_cmd: $demo_cmd" >> $LOG
 git apply $D/demo.diff || { echo "SEED $WT/$K: demo.diff does not apply"; exit 1; }
-echo "== demo without patch" >> $LOG
+touch src/lib.rs; echo "== demo without patch" >> $LOG
 ( eval "$demo_cmd" ) >> $LOG 2>&1; rc_clean=$?
-git apply $D/patch.diff || { echo "SEED $WT/$K: patch.diff does not apply"; exit 1; }
-echo "== demo with patch" >> $LOG
+git apply $D/$PATCH || { echo "SEED $WT/$K: patch.diff does not apply"; exit 1; }
+touch src/lib.rs; echo "== demo with patch" >> $LOG
 ( eval "$demo_cmd" ) >> $LOG 2>&1; rc_patched=$?
 git checkout -q -- . ; git clean -fdq -e out -e target
-git apply $D/patch.diff
-echo "== full suite with patch (no demo)" >> $LOG
+git apply $D/$PATCH
+touch src/lib.rs test_utils/src/lib.rs; echo "== full suite with patch (no demo)" >> $LOG
 cargo test --offline --workspace --no-fail-fast > $D/confirm_suite.log 2>&1
 fails=$(grep -E "^test .* FAILED$" $D/confirm_suite.log | grep -v "test_btc_rpc_precompiles_mainnet\|test_btc_rpc_precompiles_signet\|test_current_tx_id\|public_api" | wc -l)
 passed=$(grep -E "^test .* ok$" $D/confirm_suite.log | wc -l)
